@@ -264,11 +264,81 @@ pub enum K {
     ByteToNat,
     NatToByte,
     ByteNatByte,
+    /// Two operations on one cell: the first leaves a cached bound on it
+    /// (NativeGadget's bound bookkeeping), the second consumes it.
+    Chain(Prod, Cons),
     // vectors: inputs are the elements (their number is the length)
     Vector { m: usize, a: usize, byte: bool, filler: Option<u64>, act: VecAct, small: bool },
     // maps: initial entries are op parameters
     MapGet(Vec<(u64, u64)>),
     MapInsertGet(Vec<(u64, u64)>),
+}
+
+/// First step of a `Chain`: how the cell gets its cached bound.
+#[derive(Clone, Debug)]
+pub enum Prod {
+    /// byte -> native conversion (bound 256)
+    Byte,
+    /// bit -> native conversion (bound 2)
+    Bit,
+    /// assert_lower_than_fixed(x, b)
+    AssertLt(BigUint),
+    /// bounded_of_element(n, x) (bound 2^n)
+    Bounded(usize),
+    /// assert_equal(x, native of a byte): the bound travels to x
+    EqByte,
+}
+
+/// Second step of a `Chain`.
+#[derive(Clone, Debug)]
+pub enum Cons {
+    /// bounded_of_element(n, x) then <cmp>_fixed(c)
+    CmpFixed(CmpOp, usize, BigUint),
+    AssertLt(BigUint),
+    ToByte,
+    ToBit,
+    Bounded(usize),
+}
+
+impl Prod {
+    fn s(&self) -> String {
+        match self {
+            Prod::Byte => "convert<byte,native>".into(),
+            Prod::Bit => "convert<bit,native>".into(),
+            Prod::AssertLt(b) => format!("assert_lower_than_fixed({})", bs(b)),
+            Prod::Bounded(n) => format!("bounded_of_element({n})"),
+            Prod::EqByte => "assert_equal(x,convert<byte,native>)".into(),
+        }
+    }
+    /// exclusive bound the first step enforces
+    fn bound(&self) -> BigUint {
+        match self {
+            Prod::Byte | Prod::EqByte => big(256),
+            Prod::Bit => big(2),
+            Prod::AssertLt(b) => b.clone(),
+            Prod::Bounded(n) => pow2(*n),
+        }
+    }
+}
+
+impl Cons {
+    fn s(&self) -> String {
+        match self {
+            Cons::CmpFixed(op, n, c) => format!("{}_fixed(n={n},c={})", op.s(), bs(c)),
+            Cons::AssertLt(b) => format!("assert_lower_than_fixed({})", bs(b)),
+            Cons::ToByte => "convert<native,byte>".into(),
+            Cons::ToBit => "convert<native,bit>".into(),
+            Cons::Bounded(n) => format!("bounded_of_element({n})"),
+        }
+    }
+    fn pivot(&self) -> BigUint {
+        match self {
+            Cons::CmpFixed(_, _, c) | Cons::AssertLt(c) => c.clone(),
+            Cons::ToByte => big(256),
+            Cons::ToBit => big(2),
+            Cons::Bounded(n) => pow2(*n),
+        }
+    }
 }
 
 #[derive(Clone, Debug)]
@@ -350,6 +420,7 @@ impl NOp {
             K::ByteToNat => "convert<byte,native>".into(),
             K::NatToByte => "convert<native,byte>".into(),
             K::ByteNatByte => "convert<byte,native,byte>".into(),
+            K::Chain(a, b) => format!("{};{}", a.s(), b.s()),
             K::Vector { m, a, byte, filler, act, .. } => {
                 format!("vector<{},M={m},A={a}>(filler={filler:?}).{act:?}", if *byte { "byte" } else { "native" })
             }
@@ -365,7 +436,7 @@ impl NOp {
     }
 
     fn uses_cmp(&self) -> bool {
-        matches!(self.k, K::Cmp { .. } | K::CmpFixed { .. } | K::Bounded(_))
+        matches!(self.k, K::Cmp { .. } | K::CmpFixed { .. } | K::Bounded(_) | K::Chain(..))
     }
 
     /// Types of the (exposed) inputs of generic ops.
@@ -396,6 +467,12 @@ impl NOp {
             K::BitToNat => vec![Bit],
             K::NatToBit | K::NatToByte => vec![Nat],
             K::ByteToNat | K::ByteNatByte => vec![Byte],
+            K::Chain(a, _) => match a {
+                Prod::Byte => vec![Byte],
+                Prod::Bit => vec![Bit],
+                Prod::AssertLt(_) | Prod::Bounded(_) => vec![Nat],
+                Prod::EqByte => vec![Byte, Nat],
+            },
             K::AssignLt(_) | K::Vector { .. } | K::MapGet(_) | K::MapInsertGet(_) => vec![],
         }
     }
@@ -415,6 +492,7 @@ impl NOp {
             },
             K::MapGet(_) => 3,
             K::MapInsertGet(_) => 6,
+            K::Chain(_, Cons::AssertLt(_)) => 0,
             _ => 1,
         }
     }
@@ -633,6 +711,47 @@ impl NOp {
                 let n: AssignedNative<F> = std.convert(l, ins[0].y())?;
                 let y: AssignedByte<F> = std.convert(l, &n)?;
                 vec![V::Y(y)]
+            }
+            K::Chain(a, b) => {
+                let ng = std.jubjub().native_gadget();
+                let x: AssignedNative<F> = match a {
+                    Prod::Byte => std.convert(l, ins[0].y())?,
+                    Prod::Bit => std.convert(l, ins[0].b())?,
+                    Prod::AssertLt(bd) => {
+                        std.assert_lower_than_fixed(l, ins[0].n(), bd)?;
+                        ins[0].n().clone()
+                    }
+                    Prod::Bounded(n) => {
+                        let bx: AssignedBounded<F> = ng.bounded_of_element(l, *n, ins[0].n())?;
+                        ng.element_of_bounded(l, &bx)?
+                    }
+                    Prod::EqByte => {
+                        let y: AssignedNative<F> = std.convert(l, ins[0].y())?;
+                        std.assert_equal(l, ins[1].n(), &y)?;
+                        ins[1].n().clone()
+                    }
+                };
+                match b {
+                    Cons::CmpFixed(op, n, c) => {
+                        let bx: AssignedBounded<F> = ng.bounded_of_element(l, *n, &x)?;
+                        bit(match op {
+                            CmpOp::Lt => ng.lower_than_fixed(l, &bx, f(c))?,
+                            CmpOp::Leq => ng.leq_fixed(l, &bx, f(c))?,
+                            CmpOp::Geq => ng.geq_fixed(l, &bx, f(c))?,
+                            CmpOp::Gt => ng.greater_than_fixed(l, &bx, f(c))?,
+                        })
+                    }
+                    Cons::AssertLt(bd) => {
+                        std.assert_lower_than_fixed(l, &x, bd)?;
+                        vec![]
+                    }
+                    Cons::ToByte => vec![V::Y(std.convert(l, &x)?)],
+                    Cons::ToBit => bit(std.convert(l, &x)?),
+                    Cons::Bounded(n) => {
+                        let bx: AssignedBounded<F> = ng.bounded_of_element(l, *n, &x)?;
+                        nat(ng.element_of_bounded(l, &bx)?)
+                    }
+                }
             }
             K::AssignLt(_) | K::Vector { .. } | K::MapGet(_) | K::MapInsertGet(_) => unreachable!("raw op"),
         })
@@ -930,6 +1049,30 @@ impl NOp {
             }
             K::AssertLt(b) => unit(x[0] < *b),
             K::AssertLt2(a, b) => unit(x[0] < *a && x[0] < *b),
+            K::Chain(a, b) => {
+                let v = x.last().unwrap();
+                if *v >= a.bound() || (matches!(a, Prod::EqByte) && x[0] != x[1]) {
+                    return None;
+                }
+                match b {
+                    Cons::CmpFixed(op, n, c) => {
+                        if *v >= pow2(*n) {
+                            None
+                        } else {
+                            ob(match op {
+                                CmpOp::Lt => v < c,
+                                CmpOp::Leq => v <= c,
+                                CmpOp::Geq => v >= c,
+                                CmpOp::Gt => v > c,
+                            })
+                        }
+                    }
+                    Cons::AssertLt(bd) => unit(v < bd),
+                    Cons::ToByte => if *v < big(256) { Some(vec![v.clone()]) } else { None },
+                    Cons::ToBit => if *v < big(2) { Some(vec![v.clone()]) } else { None },
+                    Cons::Bounded(n) => if *v < pow2(*n) { Some(vec![v.clone()]) } else { None },
+                }
+            }
             K::Cmp { op, nx, ny } => {
                 if x[0] >= pow2(*nx) || x[1] >= pow2(*ny) {
                     None
@@ -1352,6 +1495,12 @@ impl NOp {
             }
             K::AssignLt(b) | K::AssertLt(b) => (b.clone(), Some(b.clone()), false, Bias::None),
             K::AssertLt2(a, b) => (a.min(b).clone(), Some(a.min(b).clone()), false, Bias::None),
+            // the pivot is the threshold of the second step; the domain is what the first step admits
+            K::Chain(a, b) => match (a, i) {
+                (Prod::EqByte, 1) => (b.pivot(), Some(a.bound()), false, Bias::EqPrev),
+                (Prod::Byte | Prod::Bit | Prod::EqByte, _) => (b.pivot().min(a.bound() - big(1)), Some(a.bound()), true, Bias::Pivot),
+                _ => (b.pivot(), Some(a.bound()), false, Bias::Pivot),
+            },
             K::Cmp { nx, ny, .. } => {
                 let n = if i == 0 { *nx } else { *ny };
                 (pow2(n), Some(pow2(n)), false, if i == 1 { Bias::EqPrev } else { Bias::None })
@@ -1932,6 +2081,36 @@ pub fn catalogue() -> Vec<Family> {
     }
     cf.extend([n(K::BitToNat), n(K::NatToBit), n(K::ByteToNat), n(K::NatToByte), n(K::ByteNatByte)]);
     fams.push(Family { name: "control+conversion", ops: cf });
+
+    // bound bookkeeping across two operations on the same cell: thresholds around the cached bound
+    let mut ch = vec![];
+    let prods = vec![Prod::Byte, Prod::Bit, Prod::EqByte, Prod::AssertLt(big(5)), Prod::AssertLt(big(100)), Prod::AssertLt(big(257)), Prod::AssertLt(pow2(64) + big(1)), Prod::Bounded(1), Prod::Bounded(8), Prod::Bounded(13)];
+    for a in prods {
+        let bd = a.bound();
+        let bits = (&bd - big(1)).bits().max(1) as usize;
+        for t in [&bd - big(1), bd.clone(), &bd + big(1)] {
+            if t.is_zero() {
+                continue;
+            }
+            for op in [CmpOp::Lt, CmpOp::Leq, CmpOp::Geq, CmpOp::Gt] {
+                // the comparisons with a fixed value are defined through lower_than_fixed(c) / lower_than_fixed(c + 1)
+                let c = if matches!(op, CmpOp::Leq | CmpOp::Gt) { &t - big(1) } else { t.clone() };
+                ch.push(n(K::Chain(a.clone(), Cons::CmpFixed(op, bits, c.clone()))));
+                if op == CmpOp::Lt {
+                    ch.push(n(K::Chain(a.clone(), Cons::CmpFixed(op, bits + 1, c))));
+                }
+            }
+            ch.push(n(K::Chain(a.clone(), Cons::AssertLt(t))));
+        }
+        ch.push(n(K::Chain(a.clone(), Cons::ToByte)));
+        ch.push(n(K::Chain(a.clone(), Cons::ToBit)));
+        for m in [bits.saturating_sub(1).max(1), bits, bits + 1] {
+            ch.push(n(K::Chain(a.clone(), Cons::Bounded(m))));
+        }
+    }
+    let mut seen = std::collections::HashSet::new();
+    ch.retain(|o| seen.insert(o.name()));
+    fams.push(Family { name: "bound-bookkeeping", ops: ch });
 
     let mut dv = vec![];
     for d in [big(1), big(2), big(3), big(5), big(7), big(256), big(1000), pow2(64), pow2(128) + big(1), half.clone(), pm1.clone()] {
